@@ -45,7 +45,7 @@ def main():
     out, mode, inp = sys.argv[1], sys.argv[2], sys.argv[3]
     with open(out, "w") as fh:
         if mode == "files":
-            shared = {}          # one code_objects dictionary handed to every third load, as a caller collecting code objects over many files would
+            shared = {"collected_by_the_caller": 0}          # one (non-empty) code_objects dictionary handed to every third load, as a caller collecting code objects over many files would
             for n_, path in enumerate(json.load(open(inp))):
                 data = open(path, "rb").read()
                 try:
@@ -63,7 +63,8 @@ def main():
                     r = {"id": path, "loaderror": "%s: %s" % (type(e).__name__, str(e)[-300:]), "tb": traceback.format_exc()[-500:]}
                 fh.write(json.dumps(r) + "\n")
         else:
-            for line in open(inp):
+            import tempfile
+            for n_, line in enumerate(open(inp)):
                 b = json.loads(line)
                 buf = bytes(bytearray(b["buf"]))
                 try:
@@ -75,6 +76,21 @@ def main():
                 except Exception as e:
                     r = {"id": b["id"], "magic": b["magic"], "buf": b["buf"], "loaderror": "%s: %s" % (type(e).__name__, str(e)[-300:])}
                 fh.write(json.dumps(r) + "\n")
+                if n_ % 5 == 0 and "loaderror" not in r:
+                    # the same stream through a real file object with more data behind the object: load_code reads one object and leaves
+                    # the file just behind it (no more and no less), whatever kind of file object it is given
+                    ident = b["id"] + "@file+3"
+                    try:
+                        with tempfile.NamedTemporaryFile(suffix=".marshal") as tf:
+                            tf.write(buf + b"NNN")
+                            tf.flush()
+                            with xd.quiet(), open(tf.name, "rb", buffering=0 if n_ % 10 == 0 else -1) as fp:
+                                v = load_code(fp, b["magic"])
+                                told = fp.tell()
+                        r2 = rec_value(ident, b["magic"], ver, buf + b"NNN", told, v, 0)
+                    except Exception as e:
+                        r2 = {"id": ident, "magic": b["magic"], "buf": b["buf"], "loaderror": "%s: %s" % (type(e).__name__, str(e)[-300:])}
+                    fh.write(json.dumps(r2) + "\n")
 
 
 if __name__ == '__main__':
